@@ -43,23 +43,6 @@ func c08Schedules(rng *core.RNG, thorough bool) []string {
 
 // ---- ICC reader fronts ---------------------------------------------------------
 
-// shortByteReader is a hand-written binary.Reader that returns short counts.
-type shortByteReader struct{ s *src.Source }
-
-func (r shortByteReader) Read(p []byte) (int, error) { return r.s.Read(p) }
-func (r shortByteReader) ReadByte() (byte, error) {
-	var b [1]byte
-	for {
-		n, err := r.s.Read(b[:])
-		if n == 1 {
-			return b[0], nil
-		}
-		if err != nil {
-			return 0, err
-		}
-	}
-}
-
 type iccSummary struct {
 	OK      bool
 	Header  string
